@@ -143,6 +143,7 @@ func checkC09(p *core.Program, r *core.Report) {
 	r.Rule("O9.3", "mode constant ↔ prover ↔ circuit agreement between handler and CLI setup")
 	r.Rule("O9.4", "guard-covers-use: index bounds in the provers ⊆ length equalities enforced by ValidateShape, which dominates the indexing")
 	r.Rule("O9.5", "json.Marshal arguments expose MarshalJSON to encoding/json")
+	r.Rule("O9.6", "imported verdicts: prover wiring and circuits (C07 ⊇ C01–C03), parameter decoder (C16)")
 	r.Trusted = append(r.Trusted, "net/http: first WriteHeader wins, panics in handlers are recovered per connection", "encoding/json rejects ill-typed documents with an error", "groth16.Prove returns an error for an unsatisfied system")
 	r.NotDecided = append(r.NotDecided, "panics/hangs inside third-party code for arbitrary bodies", "validity of the returned proof (C07)")
 
@@ -289,6 +290,9 @@ func checkC09(p *core.Program, r *core.Report) {
 	checkGuardCoversUse(p, r, ps)
 	// O9.5
 	checkMarshalArgs(p, r, ix)
+	// O9.6: "only a valid batch yields 200 with a proof that verifies; an invalid one yields proving_error; a non-document
+	// yields malformed_body" rests on the prover wiring/circuits (C07, which imports C01–C03) and on the strict decoder (C16)
+	importVerdicts(p, r, "O9.6", "status 200 ⇔ valid batch rests on the prover wiring, the circuits and the strict parameter decoder", "C07", "C16")
 }
 
 func posList(p *core.Program, ps []token.Pos) []string {
